@@ -2,6 +2,7 @@ package kvql
 
 import (
 	"fmt"
+	"math"
 	"strconv"
 	"strings"
 )
@@ -263,7 +264,7 @@ func (a *AggregatePlan) batchGetAggrKeys(chunk []KVPair, ctx *ExecuteCtx) ([]str
 	for i := 0; i < len(chunk); i++ {
 		aggKey = aggKey[:0]
 		for j := 0; j < len(fields); j++ {
-			bval, err := a.convertToBytes(fields[j][i])
+			bval, err := a.aggrKeyBytes(fields[j][i])
 			if err != nil {
 				return nil, err
 			}
@@ -509,7 +510,7 @@ func (a *AggregatePlan) getAggrKey(key []byte, val []byte, ctx *ExecuteCtx) (str
 		if err != nil {
 			return "", err
 		}
-		bval, err := a.convertToBytes(eval)
+		bval, err := a.aggrKeyBytes(eval)
 		if err != nil {
 			return "", err
 		}
@@ -525,6 +526,19 @@ func appendAggrKeyPart(key []byte, val []byte) []byte {
 	key = strconv.AppendInt(key, int64(len(val)), 10)
 	key = append(key, ':')
 	return append(key, val...)
+}
+
+// aggrKeyBytes renders one group by value for the group key. A float is keyed
+// by its exact value: the "%f" text used for display keeps six decimals only
+// and would put 1.0000001 and 1.0000002 into one group.
+func (a *AggregatePlan) aggrKeyBytes(val any) ([]byte, error) {
+	switch value := val.(type) {
+	case float32:
+		return strconv.AppendUint(nil, math.Float64bits(float64(value)), 16), nil
+	case float64:
+		return strconv.AppendUint(nil, math.Float64bits(value), 16), nil
+	}
+	return a.convertToBytes(val)
 }
 
 func (a *AggregatePlan) execExpr(kvp KVPair, expr Expression, ctx *ExecuteCtx) ([]byte, error) {
